@@ -338,6 +338,14 @@ func (ex *Exec) evalIdent(name string, env *CEnv, want string) TV {
 	if b, ok := env.bound[name]; ok {
 		return TV{V: b}
 	}
+	if env.inOld {
+		// inside old(): a parameter is its entry value (its cell has not been written yet in the entry state)
+		if v, ok := env.vars[name+"0"]; ok {
+			if _, lz := v.V.(*lazyCell); !lz {
+				return v
+			}
+		}
+	}
 	if v, ok := env.vars[name]; ok {
 		// locals bound lazily to cells are loaded from the state in use
 		if lz, ok := v.V.(*lazyCell); ok {
